@@ -89,6 +89,118 @@ def run_fn(rng, d, mx, chunked):
 
 
 # ---------------------------------------------------------------------------------------------
+# (3) split_dataset vs the Lean `Part10` model
+KNOWN_SHORT = [b"UI", b"UL", b"SH", b"AE", b"CS", b"LO", b"US", b"PN", b"DA"]
+KNOWN_LONG = [b"OB", b"UN", b"UT", b"SQ", b"UC", b"OW"]
+
+
+def p10_elem(rng, group=2, kind=None):
+    """(bytes, wellformed) of one Explicit-VR-LE element"""
+    kind = kind or rng.choice(["short"] * 6 + ["long"] * 3 + ["unknown", "nonletter", "undef", "lowercase"])
+    tag = group.to_bytes(2, "little") + rng.choice([0, 1, 2, 3, 0x10, 0x12, 0x13, 0x16, 0x100, 0x102, rng.randrange(65536)]).to_bytes(2, "little")
+    n = rng.choice([0, 0, 1, 2, 4, 7, 8, 16, 33, 300])
+    val = rng.randbytes(n)
+    if kind == "short":
+        return tag + rng.choice(KNOWN_SHORT) + n.to_bytes(2, "little") + val, True
+    if kind == "long":
+        return tag + rng.choice(KNOWN_LONG) + b"\x00\x00" + n.to_bytes(4, "little") + val, True
+    if kind == "undef":
+        return tag + rng.choice(KNOWN_LONG) + b"\x00\x00" + b"\xff\xff\xff\xff" + val, False
+    if kind == "unknown":  # two capitals that are no VR: 16-bit length
+        return tag + rng.choice([b"ZZ", b"AB", b"XQ", b"OO"]) + n.to_bytes(2, "little") + val, False
+    if kind == "lowercase":  # inside b"AA".."ZZ" lexicographically, not capitals
+        return tag + rng.choice([b"Ba", b"Y\x00", b"A\x7f", b"Z\x10"]) + n.to_bytes(2, "little") + val, False
+    # bytes 4-5 outside b"AA".."ZZ": read as implicit VR, 32-bit length
+    return tag + n.to_bytes(4, "little") + val, False
+
+
+def p10_dataset(rng):
+    """(bytes, satisfies dsStartOk)"""
+    k = rng.choice(["empty", "explicit", "explicit", "explicit-long", "implicit", "implicit", "implicit-OB", "short-tail",
+                    "long-cut", "delimiter", "group2-implicit", "random"])
+    body = rng.randbytes(rng.choice([0, 3, 16, 100]))
+    if k == "empty":
+        return b"", True
+    if k == "explicit":
+        return rng.choice([b"\x08\x00", b"\x08\x00", b"\x00\x00", b"\x01\x00", b"\x03\x00", b"\xe0\x7f", b"\x02\x01"]) + rng.choice([b"\x05\x00", b"\x16\x00", b"\x18\x00"]) + rng.choice(KNOWN_SHORT) + len(body).to_bytes(2, "little") + body, True
+    if k == "explicit-long":
+        return b"\x08\x00\x16\x00" + rng.choice(KNOWN_LONG) + b"\x00\x00" + len(body).to_bytes(4, "little") + body, True
+    if k == "implicit":
+        n = rng.choice([0, 2, 26, 0x4141, 0x5A5A, 0x0100])
+        return b"\x08\x00\x16\x00" + n.to_bytes(4, "little") + body, True
+    if k == "implicit-OB":  # an implicit-VR length whose low bytes spell a 32-bit-length VR
+        n = int.from_bytes(rng.choice(KNOWN_LONG), "little") + 65536 * rng.choice([0, 1])
+        return b"\x08\x00\x16\x00" + n.to_bytes(4, "little") + body + b"\x00" * 4, True
+    if k == "short-tail":
+        return (b"\x08\x00\x16\x00" + rng.randbytes(8))[: rng.randrange(1, 8)], False
+    if k == "long-cut":  # explicit 32-bit-length VR, the length field cut off
+        return (b"\x08\x00\x16\x00" + rng.choice(KNOWN_LONG) + b"\x00\x00" + rng.randbytes(4))[: rng.randrange(8, 12)], False
+    if k == "delimiter":
+        return b"\xfe\xff\x0d\xe0" + rng.choice([b"\x00" * 4, b"OB\x00\x00" + b"\x00" * 4, b"UI\x00\x00"]) + body, False
+    if k == "group2-implicit":
+        return b"\x02\x00\x10\x00" + len(body).to_bytes(4, "little") + body, False
+    return rng.randbytes(rng.choice([8, 9, 12, 40])), False
+
+
+def p10_case(rng):
+    """a file in (or near) the DICOM File Format; returns (file, meta bytes, data-set bytes, claims)"""
+    elems, wf = [], True
+    style = rng.choice(["wf"] * 6 + ["any"] * 3 + ["nometa"])
+    for _ in range(0 if style == "nometa" else rng.choice([1, 1, 2, 3, 6])):
+        e, ok = p10_elem(rng, kind=rng.choice(["short", "short", "long"]) if style == "wf" else None)
+        elems.append(e)
+        wf = wf and ok
+    body = b"".join(elems)
+    gl = rng.choice(["right", "right", "absent", "wrong"])
+    if gl != "absent" and style != "nometa":
+        n = len(body) if gl == "right" else rng.choice([0, len(body) + 8, max(0, len(body) - 3), 0xFFFFFFF0])
+        body = b"\x02\x00\x00\x00UL\x04\x00" + n.to_bytes(4, "little") + body
+    ds, ds_ok = p10_dataset(rng)
+    pre = rng.randbytes(128) if rng.random() < 0.5 else b"\x00" * 128
+    head = rng.choice(["ok"] * 12 + ["nomagic", "shortfile", "shifted"])
+    if head == "ok":
+        f = pre + b"DICM" + body + ds
+    elif head == "nomagic":
+        f, wf = pre + rng.choice([b"DICN", b"dicm", b"\x00" * 4]) + body + ds, False
+    elif head == "shortfile":
+        f, wf = (pre + b"DICM")[: rng.choice([0, 5, 128, 130, 131])], False
+    else:
+        f, wf = pre[:127] + b"DICM" + body + ds, False
+    cut = None
+    if rng.random() < 0.08 and len(f) > 133:
+        cut = rng.randrange(132, len(f))
+        f, wf = f[:cut], False
+    return dict(file=f, meta=body, ds=ds, wf=wf and ds_ok and head == "ok", gl=gl, style=style, head=head, cut=cut is not None)
+
+
+def run_split(tmpdir, i, data):
+    import struct
+    import warnings
+
+    from pydicom.errors import InvalidDicomError
+    from pynetdicom.dsutils import split_dataset
+
+    path = os.path.join(tmpdir, f"f{i}.dcm")
+    with open(path, "wb") as fh:
+        fh.write(data)
+    try:
+        with warnings.catch_warnings():
+            warnings.simplefilter("ignore")
+            from pathlib import Path
+
+            _, off = split_dataset(Path(path))
+        return ["ok", off]
+    except InvalidDicomError:
+        return "invalid-dicom"
+    except struct.error:
+        return "struct-error"
+    except Exception as exc:
+        return "exc:" + type(exc).__name__
+    finally:
+        os.unlink(path)
+
+
+# ---------------------------------------------------------------------------------------------
 def gen_dataset(rng):
     from pydicom.dataset import Dataset
     from pydicom.sequence import Sequence
@@ -377,6 +489,45 @@ def run(ctx):
             ctx.fail("raw-bytes-differ:" + ("chunked" if chunked else "memory"), f"encoded_dataset(False) returned {len(r['raw'])} bytes, sent {len(d)} (max {mx})", case)
         if chunked and not (r["file"][:132] == b"\x00" * 128 + b"DICM" and r["file"].endswith(d) and r["full"] == r["file"]):
             ctx.fail("chunked-file-layout", f"file layout / encoded_dataset(True) wrong (max {mx}, {len(d)} bytes)", case)
+    # (3) split_dataset: the offset chunked SEND starts reading at, vs the Lean element walk
+    from pydicom import config as _pc
+
+    if not (_pc.assume_implicit_vr_switch and _pc.settings.reading_validation_mode == _pc.WARN):
+        ctx.note("pydicom configuration is not the default one the Part10 model assumes")
+    p10 = [p10_case(ctx.rng) for _ in range(ctx.n(1500, 30000))]
+    # the witnesses of C25_split_group_length_unused / _short_tail_neg / _unknown_vr_neg, replayed on the real code
+    pre0 = b"\x00" * 128 + b"DICM"
+    directed = [
+        (pre0 + bytes([2, 0, 0, 0, 0x55, 0x4C, 4, 0, 0, 0, 0, 0]) + bytes([2, 0, 0x10, 0, 0x55, 0x49, 2, 0, 0x31, 0])
+         + bytes([8, 0, 0x16, 0, 0x55, 0x49, 0, 0]), ["ok", 154], "group-length-says-0"),
+        (pre0 + bytes([2, 0, 0x10, 0, 0x55, 0x49, 0, 0]) + bytes([8, 0, 0x16]), ["ok", 143], "tail-shorter-than-a-header"),
+        (pre0 + bytes([2, 0, 0x10, 0, 0x5A, 0x5A, 9, 0]) + bytes([8, 0, 0x16, 0, 0x55, 0x49, 0, 0]), ["ok", 148], "unknown-VR-ZZ"),
+    ]
+    with tempfile.TemporaryDirectory(prefix="verif_c25_") as td:
+        for i, (f, want, name) in enumerate(directed):
+            got = run_split(td, 10**6 + i, f)
+            ctx.case(["split-directed", name], kind="split:directed:" + name)
+            if got != want:
+                ctx.diff(["split-directed", name, f], got, want, "split_dataset differs from the kernel-checked witness")
+    with tempfile.TemporaryDirectory(prefix="verif_c25_") as td:
+        p10_real = [run_split(td, i, c["file"]) for i, c in enumerate(p10)]
+    p10_model = ctx.lean([["part10.split", c["file"]] for c in p10])
+    for c, r, m in zip(p10, p10_real, p10_model):
+        case = ["split", c["file"]]
+        kind = f"split:{c['style']}:gl-{c['gl']}:{c['head']}" + (":cut" if c["cut"] else "") + (":wf" if c["wf"] else "")
+        ctx.case(["split", c["style"], c["gl"], c["head"], c["cut"], len(c["meta"]), len(c["ds"]), c["file"][132:148]],
+                 nontrivial=c["head"] == "ok" and len(c["meta"]) > 0, kind=kind)
+        ctx.hist["split-result:" + (r[0] if isinstance(r, list) else r)] += 1
+        if m == "undefined-length":
+            ctx.hist["split:outside-model(undefined length in group 0002)"] += 1
+        elif r != m:
+            ctx.diff(case, r, m, "split_dataset and the Part10 model disagree")
+        if c["wf"]:
+            want = 132 + len(c["meta"])
+            if r != ["ok", want] or c["file"][want:] != c["ds"]:
+                ctx.fail("split:offset-not-at-end-of-meta", f"split_dataset returned {r}, the data set starts at {want} "
+                         f"(group length {c['gl']}, {len(c['ds'])} data-set bytes): chunked send would put "
+                         f"{'other' if isinstance(r, list) else 'no'} bytes on the wire", case)
     # (2) end to end
     jobs = []
     TS = ["ImplicitVRLittleEndian", "ExplicitVRLittleEndian", "ExplicitVRBigEndian", "DeflatedExplicitVRLittleEndian"]
